@@ -181,6 +181,9 @@ pub struct RunOut {
 pub fn run_one(prof: &Profile, mut ch: Chooser, st: &mut Stats, known: &Known, want_trace: bool) -> RunOut {
     let cfg = crate::cfg::draw(&mut ch, prof);
     ch.cfg_end = ch.marks.len() as u32;
+    if cfg.soak {
+        st.probe("soak-run-4000-steps");
+    }
     if cfg.fault_free {
         st.runs_fault_free += 1;
     } else {
